@@ -319,6 +319,18 @@ def rule_tau(ctx, tu):
             ctx.check(used and len(same) == len(used), R, g.node, g.qual, "%s applied as %s" % (tab, sorted(set(used))[:2]),
                       "read back at the index it was stored at (%s)" % tgt, "counts are applied at another index than they were "
                       "drawn at")
+    # all counts of a step are drawn from the state before the step: the whole drawing pass, then the whole applying pass
+    from .c01 import two_phase_calls
+    for cn in TAU:
+        it = tu.fn(cn + "::Iterate")
+        ok2, why2 = two_phase_calls(it.body, "Compute_nevt", "Apply_nevt")
+        ctx.check(ok2, R, it.node, it.qual, "Compute_nevt for every cell, then Apply_nevt", "every count is Poisson(propensity in "
+                  "the state before the step x dt)", "the counts are not all drawn before the first one is applied (%s): channels "
+                  "drawn later see a partly updated state" % why2)
+        comp = tu.fn(cn + "::Compute_nevt")
+        w_ = cxa.Effects(tu).writes(comp.qual)
+        ctx.check("f:mesh_x" not in w_, R, comp.node, comp.qual, "Compute_nevt does not write the state", "", "the drawing pass "
+                  "modifies the state it draws from")
     # the time a step accounts for is the time the counts were drawn for: Iterate advances the clock by that same dt
     for cn in TAU:
         it = tu.fn(cn + "::Iterate")
@@ -354,7 +366,7 @@ def rule_tau(ctx, tu):
             ctx.check(okk, R, r, f.qual, text(r)[:100], "one draw of std::poisson_distribution(%s) from rng" % lam,
                       "a value returned by Poisson(%s) is not a draw of std::poisson_distribution(%s)(rng): the number of "
                       "firings of a channel over a step is no longer Poisson with mean propensity x dt" % (lam, lam))
-    ctx.floor(R, 12)
+    ctx.floor(R, 14)
 
 
 def rule_draws(ctx, tu):
